@@ -88,6 +88,17 @@ def classify(msg):
     return 'other', True
 
 
+def expand_tags(tags):
+    """a clause tagged with a property also serves the properties whose argument rests on it (units.IMPLIES): the wire-format contracts of the
+    strict slicing decoders (C03) are premises of 'struct decoding == slicing' (C04), 'lax extends strict' (C05) and 'equivalent doors' (C06),
+    which are all proved as 'both sides equal the same spec function'"""
+    out = list(tags or [])
+    for t in list(out):
+        for u in getattr(U, 'IMPLIES', {}).get(t, []):
+            if u not in out: out.append(u)
+    return out
+
+
 def run_verus(force=False, slow=False):
     """weave + verify the whole crate once; cached by content hash of (current /repo source, contracts, spec, tools);
     slow=True (thorough tier) also verifies the functions marked @slow, which the quick tier keeps as assumed contracts"""
@@ -181,7 +192,7 @@ def build_v_result(wmap, out, diags, vp, wd):
         else:
             parts = target.split('::'); parts[-1] = m['woven_name']; qual = '::'.join(parts)
         vname = 'etherparse::%s::%s' % (modpath_of(m['file']), qual) if m['file'] != 'lib.rs' else 'etherparse::' + qual
-        fns[m['fn'] + '@' + m['file']] = dict(fn=m['fn'], file=m['file'], vname=vname, tags=m['tags'], orig_line=m['orig_line'], orig_end_line=m.get('orig_end_line', m['orig_line']),
+        fns[m['fn'] + '@' + m['file']] = dict(fn=m['fn'], file=m['file'], vname=vname, tags=expand_tags(m['tags']), orig_line=m['orig_line'], orig_end_line=m.get('orig_end_line', m['orig_line']),
                                               woven=(m.get('woven_start'), m.get('woven_end')), clauses=m.get('clauses', []),
                                               rewrites=m.get('rewrites', {}), contract=m.get('contract'), status='unknown', diags=[], time_us=0,
                                               assumed=m.get('assumed', False), demoted=m.get('demoted'))
@@ -234,7 +245,7 @@ def build_v_result(wmap, out, diags, vp, wd):
                 if s.get('label') and 'failed this postcondition' in s['label']:
                     for c in fns[owner]['clauses']:
                         if c['kind'] == 'ensures' and c['from'] <= s['line_start'] <= c['to']:
-                            tags = [t for t in (c['tag'].split() or [''])[0].split(',') if t] or None
+                            tags = expand_tags([t for t in (c['tag'].split() or [''])[0].split(',') if t]) or None
                             rec['clause'] = {'tag': c['tag'], 'text': (s.get('text') or [{}])[0].get('text', '').strip()[:300]}
                             # the contract of a private helper is proof scaffolding for its callers' postconditions: when it stops
                             # verifying, the code may merely have been regrouped (rule 3), it is not a violation by itself
